@@ -30,7 +30,7 @@ import (
 // blocks of 1-4 elements and both worlds are built from the file (ingest.PBFFilesOSMSource, whose reader
 // decodes blobs on g goroutines, so that ways, relations and nodes arrive in varying order). `pbf` is then the
 // file name (to be removed by the caller) and the features are those of the file read back.
-func source(seed uint64, no int, thorough bool) (fs []ingest.Feature, shape []string, pbf string, err error) {
+func source(seed uint64, no int, thorough bool) (fs []ingest.Feature, shape []string, pbf string, reuse int, err error) {
 	var in *wd.Input
 	r := wd.CaseRand(seed, no)
 	if no >= 1000000 {
@@ -42,19 +42,30 @@ func source(seed uint64, no int, thorough bool) (fs []ingest.Feature, shape []st
 	if no == 1000001 || (no < 1000000 && r.Chance(1, 3)) {
 		pbf, err = wd.WritePBF(in, 1+r.Intn(4))
 		if err != nil {
-			return nil, nil, pbf, err
+			return nil, nil, pbf, 0, err
 		}
 		back, err := wd.ReadBackPBF(pbf)
 		if err != nil {
-			return nil, nil, pbf, err
+			return nil, nil, pbf, 0, err
 		}
 		fs, err = back.Features()
-		return fs, append(shape, "source:pbf-file"), pbf, err
+		return fs, append(shape, "source:pbf-file"), pbf, 0, err
 	}
-	shape = append(shape, "source:memory")
+	// half of the remaining cases (and the third corpus input) read from a source that reuses one value per
+	// kind and goroutine, as ingest/osm.go does: 1 = contiguous chunks per goroutine, 2 = interleaved
+	if no == 1000002 {
+		reuse = 1
+	} else if no < 1000000 && r.Bool() {
+		reuse = 1 + r.Intn(2)
+	}
+	if reuse > 0 {
+		shape = append(shape, fmt.Sprintf("source:reusing-%d", reuse))
+	} else {
+		shape = append(shape, "source:memory")
+	}
 	fs, err = in.Features()
 	if err != nil {
-		return nil, nil, "", err
+		return nil, nil, "", 0, err
 	}
 	// features an OSM source cannot produce: an area over an open (valid) path, an area over a path
 	// that does not exist
@@ -80,7 +91,11 @@ func source(seed uint64, no int, thorough bool) (fs []ingest.Feature, shape []st
 	}
 	// arrival order of a 1-goroutine read: as emitted / areas first (so that the validator has to queue
 	// them) / shuffled
-	switch r.Intn(3) {
+	order := r.Intn(3)
+	if no == 1000002 || (reuse > 0 && r.Bool()) {
+		order = 1 // a reusing source is most telling when areas come before their paths
+	}
+	switch order {
 	case 0:
 		shape = append(shape, "order:source")
 	case 1:
@@ -103,7 +118,7 @@ func source(seed uint64, no int, thorough bool) (fs []ingest.Feature, shape []st
 		fs = out
 		shape = append(shape, "order:shuffled")
 	}
-	return fs, shape, "", nil
+	return fs, shape, "", reuse, nil
 }
 
 func corpus() *wd.Input {
@@ -128,7 +143,7 @@ func corpus() *wd.Input {
 
 // goroutine counts of the compact builds of a case besides 1 (the in-memory world is built with all of 2..16)
 func compactGs(seed uint64, no int, thorough bool) []int {
-	if no == 1000001 {
+	if no == 1000001 || no == 1000002 {
 		return []int{2, 3, 5, 8, 16}
 	}
 	if no >= 1000000 {
@@ -170,7 +185,7 @@ func parseArg(arg string) (seed uint64, thorough bool, no int, rest []string) {
 func basicChild(arg string) string {
 	seed, thorough, no, _ := parseArg(arg)
 	var t wd.Transcript
-	fs, shape, pbf, err := source(seed, no, thorough)
+	fs, shape, pbf, reuse, err := source(seed, no, thorough)
 	if pbf != "" {
 		defer os.Remove(pbf)
 	}
@@ -195,6 +210,8 @@ func basicChild(arg string) string {
 		var err error
 		if pbf != "" {
 			w, err = wd.BuildBasicFromPBF(pbf, g)
+		} else if reuse > 0 {
+			w, err = wd.BuildBasicFromReusing(fs, reuse == 2, g)
 		} else {
 			w, err = wd.BuildBasicFromFeatures(fs, g)
 		}
@@ -223,7 +240,7 @@ func compactChild(arg string) string {
 	seed, thorough, no, rest := parseArg(arg)
 	g, _ := strconv.Atoi(rest[0])
 	var t wd.Transcript
-	fs, _, pbf, err := source(seed, no, thorough)
+	fs, _, pbf, reuse, err := source(seed, no, thorough)
 	if pbf != "" {
 		defer os.Remove(pbf)
 	}
@@ -233,6 +250,8 @@ func compactChild(arg string) string {
 	var w b6.World
 	if pbf != "" {
 		w, err = wd.BuildCompactFromPBF(pbf, g)
+	} else if reuse > 0 {
+		w, err = wd.BuildCompactFromReusing(fs, reuse == 2, g)
 	} else {
 		w, err = wd.BuildCompactFromFeatures(fs, g)
 	}
@@ -280,6 +299,7 @@ func main() {
 			out := fmt.Sprintf("CASE\t%d\n", first) + runCase(seed, tier, first)
 			if first == 1000000 { // the corpus has a second input: the same features from a PBF file
 				out += "O\treset\t-\n" + runCase(seed, tier, 1000001)
+				out += "O\treset\t-\n" + runCase(seed, tier, 1000002) // … and from a source that reuses its values
 			}
 			return out
 		}}
@@ -288,7 +308,7 @@ func main() {
 	}
 	hx.Main(hx.Family{
 		Name:     "c36",
-		Rule:     "features of a generated OSM-shaped input (see c02) plus areas over open / absent paths, in source order, areas first or shuffled, read from an ingest.MemoryFeatureSource; one case in three instead written to a PBF file in blocks of 1-4 elements and read by ingest.PBFFilesOSMSource (parallel blob decoding); in-memory world built with 1..16 cores, compact index with 1 and two sampled counts from 2..16 (thorough: 16 and four sampled; corpus: all of 2..16), each compact build in its own process; non-trivial = at least three feature types",
+		Rule:     "features of a generated OSM-shaped input (see c02) plus areas over open / absent paths, in source order, areas first or shuffled, read from an ingest.MemoryFeatureSource; one case in three instead written to a PBF file in blocks of 1-4 elements and read by ingest.PBFFilesOSMSource (parallel blob decoding); half of the others read from a harness source that reuses one value per kind and goroutine like ingest/osm.go (contiguous or interleaved shares, areas first half of the time); in-memory world built with 1..16 cores, compact index with 1 and two sampled counts from 2..16 (thorough: 16 and four sampled; corpus: all of 2..16), each compact build in its own process; non-trivial = at least three feature types",
 		Quick:    120,
 		Thorough: 400,
 		Corpus:   run,
